@@ -295,6 +295,19 @@ def load_known():
     return d
 
 
+def _matches_fixed(o, fixed):
+    """does the failing instance `o` belong to a (rule, function) for which a repaired defect is on record?"""
+    head = o["key"].split("::")[0]
+    for rule, key in fixed:
+        if rule != o["rule"]:
+            continue
+        for alt in key.split(" / "):
+            a = alt.strip().split("::")[0]
+            if a and (head == a or head.endswith("." + a) or o["key"] == key):
+                return True
+    return False
+
+
 _churn_cache = {}
 
 
@@ -501,11 +514,15 @@ class Check:
             self.assumptions.append(text)
 
     # -- finishing ------------------------------------------------------
-    def _churn_gate(self, open_keys):
+    def _churn_gate(self, open_keys, fixed_rules=()):
         """A negative verdict is trusted only where the judged file is still close to the reviewed baseline.  When more than
         VCHECK_CHURN (default 30) normalised statements / code lines of the file named by an instance's `where` differ from
         /verif/baseline, the instance is reported as not recognised (exit 2: "this file was rewritten, re-review the rule
-        against it") instead of as a violation.  Passing instances are not affected; known findings are not affected."""
+        against it") instead of as a violation.  Passing instances are not affected; known findings are not affected.
+        Instances that once found a defect which was confirmed against the real code and repaired (the `fixed` entries of
+        known_findings.json: same rule, same function / entry point = first `::` component of the key) are not gated either:
+        if such an instance fails again the violation is reported whatever else changed in the file (the whole fix being
+        reverted is itself a large change: revert-ffe3f08 is 33 statements)."""
         try:
             limit = int(os.environ.get("VCHECK_CHURN", "30"))
         except ValueError:
@@ -514,7 +531,7 @@ class Check:
             return
         keep = []
         for o in self.obl:
-            if o["ok"] or (o["rule"], o["key"]) in open_keys:
+            if o["ok"] or (o["rule"], o["key"]) in open_keys or _matches_fixed(o, fixed_rules):
                 keep.append(o)
                 continue
             path = str(o.get("where") or "").split(":")[0]
@@ -530,7 +547,8 @@ class Check:
     def finish(self, write_evidence=True):
         known = load_known()
         open_k = [k for k in known["open"] if k.get("property") == self.pid]
-        self._churn_gate({(k.get("rule"), k.get("key")) for k in open_k})
+        self._churn_gate({(k.get("rule"), k.get("key")) for k in open_k},
+                         [(k.get("rule"), k.get("key") or "") for k in known.get("fixed", []) if k.get("property") == self.pid and k.get("rule")])
         fails = [o for o in self.obl if not o["ok"]]
         if self.only is not None:
             fails = [o for o in fails if (o["rule"], o["key"]) == tuple(self.only)]
